@@ -1126,7 +1126,7 @@ impl<R> RuleSet<R> {
     pub fn add_mut(&mut self, path: impl AsRef<str>, rule: impl Into<R>) -> &mut Self {
         let path = path.as_ref().to_owned();
 
-        if let Ok(idx) = self.rules.binary_search_by(|probe| probe.0.cmp(&path)) {
+        if let Some(idx) = self.rules.iter().position(|probe| probe.0 == path) {
             // not swap_remove, because ordering!
             self.rules.remove(idx);
         }
